@@ -14,7 +14,12 @@
 // The model is TRUSTED (it cannot be validated against hardware on this host).  What ties it to FIPS-197:
 //   * its concrete meaning is, by definition, refmodels::aes::{last_core, inv_last_core, mix_columns, inv_mix_columns}
 //     (oracle validated natively against the repository's KATs and FIPS-197 vectors);
-//   * harness c02_arm::arm_pseudocode_order proves the Arm-ARM operation order equal to these functions;
+//   * harnesses c02_arm::arm_aese_order / arm_aesd_order prove the Arm-ARM operation order equal to these functions
+//     through the LD1 / AESE|AESD / ST1 entry points; the C17 harnesses (x_arm.rs) tie AESE+AESMC / AESD+AESIMC to the
+//     FIPS-197 round functions;
+//   * one-off native anchor (2026-10-04, dev and release profile): FIPS-197 Appendix C.1/C.2/C.3 vectors through
+//     Aes128/192/256 of this shadow (intrinsics arm live, real sub_word), both directions, and a 22-block
+//     encrypt_blocks/decrypt_blocks call (21-wide batch + tail) reproduce the standard's ciphertexts;
 //   * a vector is a u128 whose little-endian bytes are the 16 lanes; lane order, LD1/ST1 byte order and the u32 lane
 //     view are those of a little-endian AArch64 (and of this x86-64 host, on which the shadow runs).
 //
